@@ -36,6 +36,8 @@ def _num_tok(v):
             return 'nzero nflip'
         if r < 0.5:
             return 'nnan nneg'
+        if r < 0.62:
+            return rng.choice(['nnan nminus', 'nzero nflip nminus', 'nnan nminus nminus', 'nnan nneg nflip', 'none nzero nflip nmul nminus'])
         return 'nnan'
     p, q = v.numerator, v.denominator
     r = rng.random() if rng else 1.0
@@ -102,6 +104,9 @@ def gen_cases(rng, n, tier):
                 hard = (Fraction(*conv[j]), Fraction(conv[j][0] + conv[j - 1][0], conv[j][1] + conv[j - 1][1]))
             if rng.random() < 0.3:
                 hard = (-hard[0], -hard[1])
+        if hard is None and rng.random() < 0.03:
+            # NaN (reached by any route, negated in place or not) against the values a shortcut would single out
+            hard = (None, rng.choice([Fraction(0), Fraction(0), Fraction(1), Fraction(-1), Fraction(1, 2 ** 64), Fraction(-2 ** 64), None]))
         if hard is not None:
             a, b = hard
         elif a is None or k < 0.3:
@@ -131,6 +136,11 @@ def gen_cases(rng, n, tier):
             e = 1 if a == b else 0
         script = '%s %s ncmp out' % (_num_tok(a), _num_tok(b))
         expect = ['o|' + o]
+        if rng.random() < 0.3:
+            # the ordering operators themselves (unordered: all four are false)
+            opr = rng.choice(['lt', 'le', 'gt', 'ge'])
+            script += ' %s %s n%s out' % (_num_tok(a), _num_tok(b), opr)
+            expect.append('b|%d' % (0 if (a is None or b is None) else (1 if {'lt': a < b, 'le': a <= b, 'gt': a > b, 'ge': a >= b}[opr] else 0)))
         if e is not None:
             script += ' %s %s neq out' % (_num_tok(a), _num_tok(b))
             expect.append('b|%d' % e)
